@@ -428,3 +428,51 @@ def debiaser_for(case):
             return ISIMIP.from_variable("tas", running_window_step_length=31)
         return {**real_debiasers(), **more_debiasers()}[name]()
     return make(case.get("kind", "deb"))
+
+
+# ------------------------------------------------------------------ instance histories (C05: call sequences on ONE debiaser instance)
+def history_debiasers():
+    """name -> factory of the debiasers whose instances are taken through a history (settings assigned after construction, earlier work on
+    another data set, copies) before the grid run is judged: every class that derives helper objects in __attrs_post_init__ (running windows
+    over days of year / over years) plus the user-defined running-window probe and two that have none"""
+    from ibicus.debias import CDFt, ISIMIP, QuantileDeltaMapping
+
+    m, r = more_debiasers(), real_debiasers()
+    return {
+        "rw/WindowProbe": m["rw/WindowProbe"], "rw/LinearScaling": m["rw/LinearScaling"], "rw/DeltaChange": m["rw/DeltaChange"],
+        "rw/QuantileMapping": m["rw/QuantileMapping"],
+        "isimip/tas-windows": lambda: ISIMIP.from_variable("tas", running_window_step_length=31),
+        "yw/CDFt": lambda: CDFt.from_variable("tas", running_window_step_length=31),
+        "yw/QuantileDeltaMapping": lambda: QuantileDeltaMapping.from_variable("tas", running_window_step_length=31),
+        "LinearScaling": r["LinearScaling"], "DeltaChange": r["DeltaChange"], "ISIMIP": r["ISIMIP"],
+    }
+
+
+# settings a user may assign on an existing instance (attrs validates on assignment); apply re-derives the helper objects from them
+HISTORY_SETTINGS = {
+    "running_window_mode": (True, False),
+    "running_window_length": (11, 31, 61, 91),
+    "running_window_step_length": (1, 5, 7, 11),
+    "running_window_mode_over_years_of_cm_future": (True, False),
+    "running_window_over_years_of_cm_future_length": (1, 3, 17),
+    "running_window_over_years_of_cm_future_step_length": (1, 3),
+    "delta_type": ("additive", "multiplicative"),
+}
+
+
+def history_time_kwargs(starts, lengths, time_type="date"):
+    """time arrays of a history data set: None -> no time arrays (the library infers dates from a 1 January); 'datetime64' -> numpy dates"""
+    if starts is None:
+        return {}
+    kw = time_kwargs(starts, lengths)
+    if time_type == "datetime64":
+        kw = {k: np.array([np.datetime64(d.isoformat()) for d in v], dtype="datetime64[D]") for k, v in kw.items()}
+    return kw
+
+
+def seasonal_grid(nprs, T, nx, ny, mean, start=None):
+    """temperature-like data with an annual cycle (so that the placement of the running windows in the year matters)"""
+    import datetime
+
+    d0 = datetime.date.fromisoformat(start).timetuple().tm_yday if start else 1
+    return mean + 8.0 * np.sin(2 * np.pi * (np.arange(T) + d0) / 365.25)[:, None, None] + 3.0 * nprs.standard_normal((T, nx, ny))
